@@ -285,6 +285,21 @@ def check(ctx):
     seq_check(ctx, M, '_start_work_order', o, N,
               need={'rec:start_work_order': 1, 'hook:start_work': 1, 'cost': 1, 'sched:FINISH_WORK': 1},
               forbid=('hook:end_work',))
+    # every call of try_working_requests scans the queue: the only way past the scan is an empty queue
+    g_scan = ctx.graph(M, 'try_working_requests', opaque=OPQ if 'OPQ' in globals() else ())
+    heads_ = [n for n in g_scan.nodes.values() if n.kind == 'cond' and isinstance(n.ast, ast.Compare) and 'len(self._request_queue)' in dv.canon_text(n.ast, n.frame)] + \
+             [n for n in g_scan.nodes.values() if n.kind == 'for' and dv.canon_text(n.ast.iter, n.frame).replace('list(', '').rstrip(')') in ('self._request_queue', 'self._request_queue.copy(', 'self._request_queue[:]')]
+    o.count()
+    if heads_:
+        empt = {(n.id, l) for n in g_scan.nodes.values() if n.kind == 'cond' for l in 'TF'
+                if dv.canon_text(n.ast, n.frame) in ('self._request_queue', 'len(self._request_queue)', 'len(self._request_queue)>0', 'len(self._request_queue)==0', 'len(self._request_queue)!=0', 'notself._request_queue')}
+        if g_scan.exit in g_scan.reach_edges([g_scan.entry], cut_edges=empt | {(h.id, l) for h in heads_ for l in ('T', 'F')}):
+            fn_s = P.method(M, 'try_working_requests')[1]
+            o.fail(P, 'Maintainer.try_working_requests', 'while i < len(self._request_queue)', 'try_working_requests can return without looking at the queue (a skipped scan leaves orders '
+                   'that fit, and whose target is free, waiting while time advances)', file=M.mod.path, line=fn_s.lineno)
+        else:
+            o.witness('always-scans')
+
     # ---- C12.5 finish ----------------------------------------------------------------------------------------
     o = Ob('C12.5', 'K3+K6', '_finish_work_order: end_work once; utilization -= needed; removed from active; finish_work_order recorded; queue re-scanned')
     obs.append(o)
@@ -361,6 +376,10 @@ def seq_check(ctx, M, meth, o, N, need, forbid):
             if nm in ('start_work', 'end_work') and isinstance(cl.func, ast.Attribute):
                 good = ctext(cl.func.value, env) == f'{rq}.target' and [ctext(x, env) for x in cl.args] == [f'{rq}.tag'] and not cl.keywords
                 bump('hook:' + nm if good else 'hook-wrong-args')
+                # the order is in progress until its end hook has run: a request made from inside the hook still finds it (identical
+                # (target, tag) refused, the target still busy)
+                if nm == 'end_work' and (any(f.startswith('deactivate#') for f in st.flags) or any(f.startswith('util-#') for f in st.flags)):
+                    bump('end-hook-after-release-wrong')
             if nm == 'add_cost' and is_self_attr(cl.func):
                 v = cl.args[1] if len(cl.args) > 1 else next((k.value for k in cl.keywords if k.arg == 'cost'), None)
                 good = v is not None and ctext(v, env) == f'{rq}.target.get_work_order_cost({rq}.tag)'
